@@ -114,6 +114,24 @@ func c05bDeliverEmitted(ctx context.Context, dst *c05Dev, what []ipfslog.Entry) 
 	return nil
 }
 
+// c05bKnownWithGrace: is the chain key of `of` held by device e? The settle above is logical where it can be (handler
+// frames, counters) but "nothing moved for 25 samples" can be fooled by a goroutine the machine did not schedule for a
+// while. A missing key is therefore looked for again for up to 20 s before it is reported: a key that is really missing
+// stays missing, one that was merely late turns up (and is counted, so that the evidence shows how often that happened).
+func c05bKnownWithGrace(ctx context.Context, rep *verifkit.Report, e *c05Dev, gpk crypto.PubKey, of crypto.PubKey) bool {
+	if e.r.ss.IsChainKeyKnownForDevice(ctx, gpk, of) {
+		return true
+	}
+	for i := 0; i < 400; i++ {
+		time.Sleep(50 * time.Millisecond)
+		if e.r.ss.IsChainKeyKnownForDevice(ctx, gpk, of) {
+			rep.Count("chain_keys_that_turned_up_during_the_grace_period", 1)
+			return true
+		}
+	}
+	return false
+}
+
 func TestVerifC05B(t *testing.T) {
 	rep := verifkit.NewReport("C05", "c05b-completeness")
 	defer rep.Finish(t)
@@ -255,7 +273,7 @@ func TestVerifC05B(t *testing.T) {
 						}
 						gpk0, _ := g.GetPubKey()
 						rep.Eval(1)
-						if !a2.r.ss.IsChainKeyKnownForDevice(ctx, gpk0, b.gc.DevicePubKey()) {
+						if !c05bKnownWithGrace(ctx, rep, a2, gpk0, b.gc.DevicePubKey()) {
 							rep.Violate("C05/chain-key-missing-after-activation", fmt.Sprintf("%s activated with %s's announcement for its member already in its log (but not yet %s's own device entry) and does not hold %s's chain key", a2.name, b.name, b.name, b.name),
 								map[string]interface{}{"case": tag, "trace": trace})
 						}
@@ -446,7 +464,7 @@ func TestVerifC05B(t *testing.T) {
 						continue
 					}
 					rep.Eval(1)
-					if !e.r.ss.IsChainKeyKnownForDevice(ctx, gpk, d.gc.DevicePubKey()) {
+					if !c05bKnownWithGrace(ctx, rep, e, gpk, d.gc.DevicePubKey()) {
 						rep.Violate("C05/chain-key-missing-at-fixpoint", fmt.Sprintf("all entries are exchanged and all handlers idle, but %s does not hold the chain key of %s", e.name, d.name),
 							map[string]interface{}{"case": tag, "trace": trace, "log_entries": len(vLogCIDs(e.gc.MetadataStore()))})
 						continue
